@@ -128,7 +128,7 @@ class SpecGen:
         if not (ty == "map_or_list_value" and self.r.random() < 0.5):
             d["type"] = ty
         for k, a in p.kw.items():
-            if a is None:
+            if a is None or (a.is_lit and a.lit is None):
                 continue
             if a.is_lit:
                 cls = {"key": "key", "index": "index", "value": "value"}[k]
@@ -153,3 +153,53 @@ class SpecGen:
         alias = {"dtype": ["dtype", "type"], "length": ["length", "len"]}
         key = ".".join(["path"] + [self.randcase(self.r.choice(alias.get(m, [m]))) for m in pt.mods])
         return {self.randcase("path") + key[4:]: parts}
+
+
+def delist(a):
+    if isinstance(a, (list, tuple)):
+        return [delist(x) for x in a]
+    if isinstance(a, dict):
+        return {k: delist(x) for k, x in a.items()}
+    return a
+
+
+def normalise_cond(t):
+    """Specs are JSON/YAML-like: the DSL terms compared with them carry lists, not tuples."""
+    for l in t.leaves():
+        l.args = [a if isinstance(a, PathT) else delist(a) for a in l.args]
+        l.kwargs = {k: (a if isinstance(a, PathT) else delist(a)) for k, a in l.kwargs.items()}
+        for a in list(l.args) + list(l.kwargs.values()):
+            if isinstance(a, PathT):
+                normalise_path(a)
+    return t
+
+
+def normalise_path(pt):
+    for part in pt.parts:
+        for ca in getattr(part, "kw", {}).values():
+            if ca is not None:
+                if ca.is_lit:
+                    ca.lit = delist(ca.lit)
+                else:
+                    normalise_cond(ca.cond)
+    return pt
+
+
+def nested_leaves(term):
+    """All leaves of a condition term, including those inside the parts of data-path arguments."""
+    out = []
+    for l in term.leaves():
+        out.append(l)
+        for a in list(l.args) + list(l.kwargs.values()):
+            if isinstance(a, PathT):
+                out.extend(path_leaves(a))
+    return out
+
+
+def path_leaves(pt):
+    out = []
+    for part in pt.parts:
+        for ca in getattr(part, "kw", {}).values():
+            if ca is not None and not ca.is_lit:
+                out.extend(nested_leaves(ca.cond))
+    return out
